@@ -381,6 +381,20 @@ func TestVerifAxiomGetForToken(t *testing.T) {
 	if r, _, err := jsonpointer.GetForToken((*Schema)(nil), "type"); err == nil || r != nil {
 		t.Fatalf("nil *Schema: %v %v", r, err)
 	}
+	// a slice of a struct kind: an in-range index yields the element by value, anything else an error
+	tuple := []Schema{{SchemaProps: SchemaProps{Title: "a"}}, {SchemaProps: SchemaProps{Title: "b"}}}
+	for tok, want := range map[string]string{"0": "a", "1": "b"} {
+		r, _, err := jsonpointer.GetForToken(tuple, tok)
+		got, ok := r.(Schema)
+		if err != nil || !ok || got.Title != want {
+			t.Fatalf("GetForToken([]Schema, %q) = %v, %v", tok, r, err)
+		}
+	}
+	for _, tok := range []string{"2", "-1", "x", ""} {
+		if r, _, err := jsonpointer.GetForToken(tuple, tok); err == nil {
+			t.Fatalf("GetForToken([]Schema, %q) = %v, nil error", tok, r)
+		}
+	}
 	sch := &Schema{SchemaProps: SchemaProps{Title: "t"}, VendorExtensible: VendorExtensible{Extensions: Extensions{"x-a": 1}}, ExtraProps: map[string]interface{}{"k": "v"}}
 	for _, tok := range []string{"title", "x-a", "k", "nope", "$ref"} {
 		r1, _, e1 := jsonpointer.GetForToken(sch, tok)
